@@ -239,10 +239,67 @@ def large_likelihood_case(case):
     return []
 
 
+def _lcg(n, seed):
+    x, out = seed % 2147483647 or 1, []
+    for _ in range(n):
+        x = (1103515245 * x + 12345) % 2147483648
+        out.append(x / 2147483648.0 - 0.5)
+    return np.array(out)
+
+
+def long_gsl_case(case):
+    """GSL-div on series long enough that words have 20..100 symbols (machine integers no longer hold a packed word), with
+    plateaus so that different windows share long runs of equal symbols. Reference: tuple words."""
+    from black_it.loss_functions.gsl_div import GslDivLoss
+
+    T, b, L, kind = case["T"], case["nb_values"], case["nb_word_lengths"], case["kind"]
+    t = np.arange(T, dtype=float)
+    noise = _lcg(T, 7)
+    if kind == "plateau":       # transient, then a steady state with rare small excursions
+        real = np.where(t < T // 5, t / (T // 5), 1.0) + np.where(t % 37 == 0, 0.3, 0.0)
+        sims = [np.where(t < T // 4, t / (T // 4), 1.0) + np.where((t + 5 * e) % 41 == 0, -0.4, 0.0) for e in range(2)]
+    elif kind == "periodic":
+        real = np.sin(2 * np.pi * t / 17.0)
+        sims = [np.sin(2 * np.pi * (t + e) / 19.0) for e in range(2)]
+    else:                        # noisy
+        real = np.cumsum(noise)
+        sims = [np.cumsum(_lcg(T, 11 + e)) for e in range(2)]
+    sim = np.stack(sims, axis=0)[:, :, None]
+    got = float(GslDivLoss(nb_values=b, nb_word_lengths=L).compute_loss(sim.copy(), real[:, None].copy()))
+    ref = R.compute(R.gsl_1d(b, L), sim, real[:, None], None, None)
+    if not close(got, ref, 1e-10):
+        if b is not None and b >= 10 or (b is None and int((T - 1) / 2.0) >= 10):
+            return []   # two-digit symbols: the base-10 packing is the recorded known finding (judged on the small lattice)
+        return [("gsl-long-words", f"GslDivLoss(nb_values={b}, nb_word_lengths={L}) on a {kind} series of {T} points: {got!r}, the definition (words as tuples) gives {ref!r}")]
+    return []
+
+
+def scaled_msm_case(case):
+    """Method of moments on data at unusual scales: a level of 1e6 with unit fluctuations, values of order 1e-9, nearly equal
+    increments. The moments are scale-covariant; nothing about them is 'almost constant'."""
+    from black_it.loss_functions.msm import MethodOfMomentsLoss
+
+    T, kind, cov, std = case["T"], case["kind"], case["cov"], case["std"]
+    base_r = np.cumsum(_lcg(T, 3)) * 0.3 + _lcg(T, 5)
+    base_s = [np.cumsum(_lcg(T, 20 + e)) * 0.3 + _lcg(T, 30 + e) for e in range(3)]
+    tr = {"level1e6": lambda x: 1e6 + x, "tiny1e-9": lambda x: 1e-9 * x, "ramp": lambda x: 0.5 * np.arange(T) + 1e-7 * x, "level-1e4": lambda x: -1e4 + 0.01 * x,
+          "plain": lambda x: x}[kind]
+    real = tr(base_r)[:, None]
+    sim = np.stack([tr(s) for s in base_s], axis=0)[:, :, None]
+    with np.errstate(all="ignore"):
+        got = float(MethodOfMomentsLoss(covariance_mat=cov, standardise_moments=std).compute_loss(sim.copy(), real.copy()))
+        ref = R.compute(R.msm_1d(cov, std, R.moments18, abs_floor=False), sim, real, None, None)
+    if got != got and ref != ref:
+        return []
+    if not close(got, ref, 1e-4):   # (cancellation in the tiny spread of nearly equal values limits the agreement of two correct evaluations)
+        return [("msm-scaled-data", f"MethodOfMomentsLoss(covariance_mat={cov!r}, standardise_moments={std}) on {kind} data of length {T}: {got!r}, the definition gives {ref!r}")]
+    return []
+
+
 def large_cell(cell):
     res = {"evaluations": 0, "nontrivial": 0, "states": 0, "transitions": 0, "traces": 0, "stats": {}, "outcomes": set(), "violations": [], "samples": []}
     for case in cell["cases"]:
-        vs = large_likelihood_case(case)
+        vs = long_gsl_case(case) if case.get("what") == "gsl" else scaled_msm_case(case) if case.get("what") == "msm" else large_likelihood_case(case)
         res["evaluations"] += 1
         res["nontrivial"] += 1
         res["transitions"] += 1
@@ -286,7 +343,7 @@ def run_cell(cell):
 
 def replay_case(case):
     if case.get("large"):
-        return [{"key": k, "what": w} for k, w in large_likelihood_case(case)]
+        return [{"key": k, "what": w} for k, w in (long_gsl_case(case) if case.get("what") == "gsl" else scaled_msm_case(case) if case.get("what") == "msm" else large_likelihood_case(case))]
     o_full = case["opts"]
     dt = np.int64 if o_full.get("sim_dtype") == "int64" else float
     o = {k: v for k, v in o_full.items() if k != "sim_dtype"}
@@ -349,7 +406,16 @@ def main(ctx):
            for h in ("silverman", "scott", 0.5)]
     for i in range(0, len(big), 3):
         cells.append({"kind": "large", "cases": big[i:i + 3]})
-    ctx.bounds = {"large_likelihood": "ensemble x length x coordinates with R*T*S*D on both sides of 2**24, three bandwidth rules", "option_vectors": len(option_lattice(ctx.tier)), "lengths": "3,4,5 (Minkowski/Fourier/likelihood), 4,5,8 (GSL), 8,9 (moments)", "ensemble": [1, 2, 3], "coordinates": [1, 2],
+    lg = [{"what": "gsl", "T": T, "nb_values": b, "nb_word_lengths": L, "kind": k} for T in ((60, 140, 200) if ctx.quick else (60, 100, 140, 200, 300)) for b in (3, 6)
+          for L in (None, 18, 19, 20, 40, 65, 70) if (L or 0) < T // 2 for k in ("plateau", "periodic", "noisy")]
+    ms = [{"what": "msm", "T": T, "kind": k, "cov": cov, "std": std} for T in (40, 200) for k in ("plain", "level1e6", "tiny1e-9", "ramp", "level-1e4")
+          for cov in ("identity", "inverse_variance") for std in (False, True)]
+    extra = lg + ms
+    for i in range(16):
+        if extra[i::16]:
+            cells.append({"kind": "large", "cases": extra[i::16]})
+    ctx.bounds = {"long_gsl_words": "series of 60-200 (300) points, words of up to 100 symbols, plateau / periodic / noisy shapes", "scaled_moments": "level 1e6, order 1e-9, nearly equal increments, level -1e4",
+                  "large_likelihood": "ensemble x length x coordinates with R*T*S*D on both sides of 2**24, three bandwidth rules", "option_vectors": len(option_lattice(ctx.tier)), "lengths": "3,4,5 (Minkowski/Fourier/likelihood), 4,5,8 (GSL), 8,9 (moments)", "ensemble": [1, 2, 3], "coordinates": [1, 2],
                   "value_alphabets": ["{0,1}^T (all)", "6 shapes over {0,1,2}", "6 shapes over 12 levels"], "tolerance": "1e-9 relative (GSL 1e-12, moments 1e-8)"}
     ctx.rule = "every (option vector, data case) pair; one loss object per option vector over the interleaved sweep; non-trivial = non-constant simulated data or more than one ensemble member"
     ctx.assumptions = ["reference models in vf/refs/losses_ref.py written from the documented definitions", "inputs on which the definition is undefined (0/0 standardisation, zero Gaussian width, base-1 logarithm) are skipped and counted"]
